@@ -268,6 +268,10 @@ def falsy_zero(ctx):
         passthrough={"as_integer", "filter_float", "int", "float", "build", "visit", "build_count", "resolve_constant"},
     )
     cfg.typed_map_attrs = {(GATE, "parameters"), (GATE, "_parameters")}
+    # counts handed to the public builder / Q-syntax API (0 is a count, None or "" is `no count`)
+    for f_ in funcs:
+        if f_.module in ("jaqalpaq.core.circuitbuilder", "jaqalpaq.qsyntax.qsyntax") and not isinstance(f_.node, ast.Lambda) and "iterations" in f_.all_params:
+            cfg.param_slots.add((f_.qualname, "iterations"))
 
     # S-expression arguments: `<sexpr>.args` where the receiver is an SExpression (typed or by the repository's naming)
     def container_pred(f, e):
